@@ -922,7 +922,9 @@ impl Storage {
         let mut batch = self.batch();
 
         for ss in scripts {
-            if ss.block_number >= to_number {
+            // Entries above a script's recorded number exist when the process died between
+            // indexing matched blocks and raising the number: look at every script.
+            {
                 let script = ss.script;
                 let mut key_prefix = vec![match ss.script_type {
                     ScriptType::Lock => KeyPrefix::TxLockScript as u8,
@@ -1051,7 +1053,7 @@ impl Storage {
                     });
 
                 // update script filter block number
-                {
+                if ss.block_number >= to_number {
                     let mut key = Key::Meta(FILTER_SCRIPTS_KEY).into_vec();
                     key.extend_from_slice(script.as_slice());
                     key.extend_from_slice(match ss.script_type {
